@@ -268,7 +268,7 @@ func r2write(c *core.Ctx, fn *core.Fn) {
 }
 
 func r2read(c *core.Ctx, fn *core.Fn) *ring.SymResult {
-	res := ring.RunSym(c, fn, &ring.Sym{})
+	res := ring.RunSym(c, fn, &ring.Sym{AllowCuts: true})
 	if ok, why := res.Usable(); !ok {
 		c.Undecidedf("R2.wake", "readSomeAt/store-call", fn.Decl.Pos(), "%s", why)
 		return res
